@@ -273,7 +273,14 @@ def run_job(job):
                 gs = gs.replace(params=FrozenDict({n: asyncinfo["gs0"].params[n] for n in names}))
         ep = dict()
         try:
-            gsr = G.init_record(gs, **{k: recflags.get(k, False) for k in ("params", "rng", "inputs", "state", "output")})
+            if job.get("record_eps_switch") and E > 1:
+                # the user prepares the record while another episode is selected and selects the episode to run afterwards (GraphState.replace_eps):
+                # the record has room for every episode of the graph, whichever one is selected when init_record is called
+                other = min(range(E), key=lambda o: (o == e, sum(len([v for v in res["raw"][o]["verts"][nm] if v[0] >= 0]) for nm in names)))
+                gsr = G.init_record(gs.replace_eps(G.timings, other), **{k: recflags.get(k, False) for k in ("params", "rng", "inputs", "state", "output")})
+                gsr = gsr.replace_eps(G.timings, e); ep["record_prepared_on_eps"] = other
+            else:
+                gsr = G.init_record(gs, **{k: recflags.get(k, False) for k in ("params", "rng", "inputs", "state", "output")})
         except KeyError as ex:
             ep["record_error"] = f"KeyError:{ex}"; gsr = gs
         out = roll(gsr, max_steps=nrun)
@@ -293,6 +300,29 @@ def run_job(job):
             for i in range(int(G.max_steps)): gs, ss = jstep(gs)
             jax.block_until_ready(gs.step)
             res["calls_gym"].append(aw.host_calls(N))
+    if job.get("skip_probe") and len(names) > 1:
+        # Graph(skip=[kind]): only the slots of the skipped kind are left out - with node names chosen so that the skipped node's name is an
+        # underscore-prefix of every other node's name (cam / cam_left): skipping one node must remove that node's invocations and nothing else
+        sk = sorted(n for n in names if n != cfg["sup"])[0]
+        ren = {n: ("k" if n == sk else "k_" + n) for n in names}
+        cfg2 = dict(cfg, nodes={ren[n]: nd for n, nd in cfg["nodes"].items()}, sup=ren[cfg["sup"]],
+                    conns={f"{ren[cc['out']]}>{ren[cc['in']]}": dict(cc, out=ren[cc["out"]], **{"in": ren[cc["in"]]}) for cc in cfg["conns"].values()})
+        try:
+            N2 = build(cfg2)
+            cg2 = base.Graph(vertices={ren[k]: v for k, v in cg.vertices.items()}, edges={(ren[a], ren[b]): ed for (a, b), ed in cg.edges.items()})
+            G2 = Graph(N2, N2[cfg2["sup"]], cg2, supergraph=MODES[job.get("mode", "MCS")], prune=job.get("prune", True), progress_bar=False, skip=["k"])
+            jreset, jstep = jax.jit(G2.reset), jax.jit(G2.step)
+            cs = []
+            for e in range(min(E, 2)):
+                del HOSTLOG[:]
+                gs = G2.init(jax.random.PRNGKey(job.get("seed", 0)), starting_eps=e)
+                gs, ss = jreset(gs)
+                for i in range(int(G2.max_steps)): gs, ss = jstep(gs)
+                jax.block_until_ready(gs.step)
+                cs.append(aw.host_calls(N2))
+            res["calls_skip"] = dict(skipped=sk, rename=ren, calls=cs, max_steps=int(G2.max_steps))
+        except Exception as ex:  # noqa
+            res["calls_skip"] = dict(error=f"{type(ex).__name__}:{str(ex)[:200]}")
     if job.get("eps_out_of_range"):
         # an episode index beyond the recorded range is clipped to the last episode (C09): the same steps execute, once each, with their own seq
         del HOSTLOG[:]
@@ -320,8 +350,11 @@ def api_paths(job, G, names, N, cfg):
         d["run_jit"] = canon_gs(gs, names)
         # reset + step^(n-1) + run_supervisor == run^n ; we compare after reset+step^n with run^n followed by run_until_supervisor
         gs, ss = G.reset(gs0)
-        for i in range(n): gs, ss = G.step(gs)
+        seen = [int(ss.eps)]
+        for i in range(n): gs, ss = G.step(gs); seen.append(int(ss.eps))
         d["reset_step"] = canon_gs(gs, names)
+        # the episode the step states carry (what reset()/step() hand to the user = what the supervisor's step sees; the per-node views of the graph state)
+        d["eps_seen"] = dict(returned=seen, views={nm: int(gs.step_state[nm].eps) for nm in names if nm in gs.state}, views_init={nm: int(gs0.step_state[nm].eps) for nm in names if nm in gs0.state})
         gs = gs0
         for i in range(n): gs = G.run(gs)
         gs = G.run_until_supervisor(gs)
